@@ -78,3 +78,7 @@ package cron
 //@   ensures[C15.addhooks_always_installs] result == nil
 //@   ghost-ensures hooksInstalled
 //@   also-modifies hooksInstalled
+
+// sort.Search calls its predicate only with indices in [0, n) (assumed contract of the dependency)
+//@ func (Timeline).Search$1
+//@   assume-entry i >= 0 && i < len(tl)
